@@ -42,18 +42,21 @@ Proof. vm_compute. repeat split. Qed.
 
 (* ---- the two models of the parser agree: with no request refused, the allocation-level model returns NULL exactly when
    the value-level model (the subject of C01, C04-C06, C09-C11) rejects, and otherwise builds a message of the same shape
-   (same pointer states, has flags, oneof cases, counts: Proofs/HeapSim.v sim_msg).  The bound is where the two really
-   differ: protobuf-c and the allocation-level model give up at the 134217713th member of one message ("too many
-   fields": 23 slabs), the value-level model has no such limit; inputs of at most 268435425 bytes cannot get there.
-   (The difference is real: harness/c/findings/slab_limit.c shows it on the library; listed as a finding under C04.) *)
+   (same pointer states, has flags, oneof cases, counts: Proofs/HeapSim.v sim_msg).  For every input of less than 2^31
+   bytes: protobuf-c and the allocation-level model give up at the 134217713th member of one message ("too many
+   fields": 23 slabs), and the value-level model now has the same limit (Impl/Unpack.v: max_members, tested right
+   after the scan).  (The proof of this theorem found that the value-level model lacked it, then only agreeing up to
+   268435425 bytes; harness/c/findings/slab_limit.c shows the limit on the library; listed as a finding under C04.) *)
 Theorem C07_the_two_parser_models_decide_alike : forall (E : env) (szmsg : nat -> Z) d data s,
-  env_ok E = true -> LeafSafe.bytes data -> Mem.zlen data <= 268435425 -> (d < length E)%nat ->
+  env_ok E = true -> LeafSafe.bytes data -> Mem.zlen data < 2147483648 -> (d < length E)%nat ->
   (fst (h_unpack E (fun _ => false) szmsg (S (length data)) d data s) = None <-> unpack_top E d data = Err EFail) /\
   (forall hm, fst (h_unpack E (fun _ => false) szmsg (S (length data)) d data s) = Some hm ->
      exists m, unpack_top E d data = Ok m /\ sim_msg m hm /\ shape_msg E m = true /\ m_desc m = d).
 Proof. exact h_unpack_accepts_iff. Qed.
 Print Assumptions C07_the_two_parser_models_decide_alike.
 
+(* the step at which the C code and the allocation-level model say "too many fields" (all 23 slabs full, one more member):
+   where the two models differed before the value-level one was given the limit (the name is kept) *)
 Theorem C07_slab_limit_is_where_they_differ : forall plan md k st slabs s, st_at st <> [] -> scan_pre (st_at st) = true ->
   fst (fst (fst (h_scan plan (S k) md st 22 (Z.shiftl 16 22) slabs s))) = false.
 Proof. exact h_scan_slab_limit. Qed.
